@@ -294,7 +294,7 @@ def run_property(ctx, plan, replay):
         json.dump(ev, f, indent=1, sort_keys=False, default=str)
     os.replace(evpath + ".tmp", evpath)
     for sig, v in known_seen:
-        print("KNOWN-FINDING: property=%s %s -- %s (observed %d times)" % (prop, sig, known_sigs[sig].get("what", ""), v["count"]))
+        print("KNOWN-FINDING: property=%s %s -- %s (observed %d times)" % (prop, sig, known_sigs[sig].get("what", "")[:220], v["count"]))
     rc = 0
     if new:
         os.makedirs(os.path.join(ctx.verif, "replays"), exist_ok=True)
